@@ -1,23 +1,37 @@
 /* c02_dispatch.c - C02: each message unit runs exactly the first command matching its effective header.
- * Bounded-exhaustive: every message of 1..K units (K = 3 quick, 4 thorough) over 24 unit spellings x 2
+ * Bounded-exhaustive: every message of 1..K units (K = 3 quick, 4 thorough) over 31 unit spellings x 2
  * separator styles, against every command table made of an ordered pair or triple of a pool of 11
- * overlapping patterns (order matters for "first"), plus the whole pool in two orders.
+ * overlapping patterns (order matters for "first"), plus the whole pool in two orders; the same with a second
+ * vocabulary (9 patterns, 21 spellings: keywords of 13..15 characters, digits and '_' in short forms).
  * Oracle: reference interpreter of the statement (effective header by the path rule, first accepting
  * entry by ref_pattern.h): expected handler log H<tag>(<effective header>) once per unit in order, or
  * exactly one -113 whose text contains the header as written; inside the handler SCPI_CmdTag,
- * SCPI_IsCmd(effective header) and SCPI_CommandNumbers must agree with the model.
+ * SCPI_IsCmd(effective header), SCPI_IsCmd(all-long and mandatory-short spelling of every table entry) and
+ * SCPI_CommandNumbers must agree with the model.
  */
 #include "ctx.h"
 #include "ref_pattern.h"
 
 #define NPOOL 11
-static const char * pool[NPOOL] = { "AAAA:Bb", "AAAA:Bb?", "AAAA[:Dd]:Ee", "AAAA:Ee", "[:AAAA]:Ff", "Ff", "AAAA:Cc#", "Bb", "*XY", "AAAA:Dd:Ee", "GG#:HH#" };
+static const char * pool1[NPOOL] = { "AAAA:Bb", "AAAA:Bb?", "AAAA[:Dd]:Ee", "AAAA:Ee", "[:AAAA]:Ff", "Ff", "AAAA:Cc#", "Bb", "*XY", "AAAA:Dd:Ee", "GG#:HH#" };
 static rp_pattern_t pool_rp[NPOOL];
-static const char * spell[] = {
+static const char * spell1[] = {
     "AAAA:Bb", "aaaa:BB?", ":AAAA:Bb", "aaaa:ee", "AAAA:DD:EE", "Bb", "BB?", "Ee", "Dd:Ee", ":Ee", "Ff", ":FF", "AAAA:Ff",
-    "Cc1", "AAAA:CC23", "CC", ":AAAA:Cc1234", "aaaa:cc00056", "GG3:HH4", "HH5", "*XY", "*xy?", "ZZ", "AAAA:ZZ", "ZZ:YY", ":AAAA:Dd:Zz", "AAAA", "Ee?",
+    "Cc1", "AAAA:CC23", "CC", ":AAAA:Cc1234", "aaaa:cc00056", "GG3:HH4", "HH5", "*XY", "*xy?", "ZZ", "AAAA:ZZ", "ZZ:YY", ":AAAA:Dd:Zz", "AAAA", "Ee?", "AAAA:Bc", "Fg", "*XZ",
 };
-#define NSPELL ((int) (sizeof spell / sizeof spell[0]))
+#define NSPELL1 ((int) (sizeof spell1 / sizeof spell1[0]))
+/* second vocabulary: keywords longer than 12 characters, short forms holding a digit or an underscore, keywords that are a
+ * prefix of another one, a numeric suffix behind a 13-character keyword */
+#define NPOOL2 9
+static const char * pool2[NPOOL2] = { "TRIGger:SYNChronization:MODE", "TRIGger:SYNChronization", "SOURce:W3GPp:STATe", "SOURce:W:STATe", "SYSTem:IEEE488:ADDRess",
+    "TEST:RX_Level?", "TEST:RX?", "THERmocouples#:TYPE", "SOURce:W3:STATe" };
+static const char * spell2[] = {
+    "TRIG:SYNC:MODE", "TRIGGER:SYNCHRONIZATION:MODE", "trig:synchronization", "MODE", "SOUR:W3GP:STAT", "SOUR:W:STAT", "source:w3gpp:state", "SOUR:W3:STAT", "STAT",
+    "SYST:IEEE488:ADDR", "SYST:IEEE:ADDR", "TEST:RX_L?", "TEST:RX?", "test:rx_level?", "RX?", "RX_L?", "THERMOCOUPLES12:TYPE", "THER3:TYPE", "TYPE", "THERMOCOUPLE:TYPE", "SYNC",
+};
+#define NSPELL2 ((int) (sizeof spell2 / sizeof spell2[0]))
+static const char ** pool = pool1, ** spell = spell1;
+static int NSPELL = NSPELL1, npool = NPOOL;
 
 static scpi_command_t table[NPOOL + 2];
 static int tab_ids[NPOOL + 2], tab_n;
@@ -31,6 +45,13 @@ static scpi_result_t handler(scpi_t * c) {
     tr_printf("H%d(%s)", (int) SCPI_CmdTag(c), eff);
     tr_printf("i%d%d", (int) SCPI_IsCmd(c, eff), (int) SCPI_IsCmd(c, "ZZ:QQ"));
     tr_printf("n%d,%d,%d;", nums[0], nums[1], nums[2]);
+    {   /* SCPI_IsCmd with spellings OTHER than the received one: every table entry's all-long and mandatory-short spelling */
+        int e, kind;
+        char probe[160];
+        tr_printf("p");
+        for (e = 0; e < tab_n; e++) for (kind = 0; kind < 2; kind++) { rp_probe(&pool_rp[tab_ids[e]], kind, probe); tr_printf("%d", (int) SCPI_IsCmd(c, probe)); }
+        tr_printf(";");
+    }
     /* handlers of the entries at even table positions fail without reporting an error of their own (-200): dispatch and
      * the header path of the following unit must not depend on whether a handler succeeded */
     return ((SCPI_CmdTag(c) / 100) % 2 == 0) ? SCPI_RES_ERR : SCPI_RES_OK;
@@ -60,7 +81,10 @@ static int ref_message(const int * units, int k, char * exp, size_t expsz, char 
         }
         if (hit >= 0) {
             int nn = rp_count_numeric(&pool_rp[tab_ids[hit]]);
-            o += (size_t) snprintf(exp + o, expsz - o, "H%d(%s)i10n%ld,%ld,-7;%s", (int) table[hit].tag, eff, nn > 0 ? nums[0] : -7L, nn > 1 ? nums[1] : -7L, ((table[hit].tag / 100) % 2 == 0) ? "E-200;" : "");
+            o += (size_t) snprintf(exp + o, expsz - o, "H%d(%s)i10n%ld,%ld,-7;p", (int) table[hit].tag, eff, nn > 0 ? nums[0] : -7L, nn > 1 ? nums[1] : -7L);
+            { int e2, kind; char probe[160]; long tmp2[RP_MAXKW];
+              for (e2 = 0; e2 < tab_n; e2++) for (kind = 0; kind < 2; kind++) { int pl = rp_probe(&pool_rp[tab_ids[e2]], kind, probe); o += (size_t) snprintf(exp + o, expsz - o, "%d", rp_match(&pool_rp[tab_ids[hit]], probe, pl, tmp2, -1)); } }
+            o += (size_t) snprintf(exp + o, expsz - o, ";%s", ((table[hit].tag / 100) % 2 == 0) ? "E-200;" : "");
             if ((table[hit].tag / 100) % 2 == 0) nfail++;
             n_matched++;
             if (second >= 0) n_shadowed++;
@@ -155,26 +179,29 @@ static void set_table(const int * ids, int n) {
 }
 
 int main(int argc, char ** argv) {
-    int a, b, c, ids[NPOOL], K;
+    int a, b, c, ids[NPOOL], K, voc;
     unsigned long long ntab = 0;
     mc_init(argc, argv);
     mc_tail_poison = 1;
     tc_log_flush = 0;        /* queries of this table answer nothing: the (empty) response framing is C06's subject */
-    for (a = 0; a < NPOOL; a++) { pool_rp[a] = rp_parse(pool[a]); if (!pool_rp[a].ok) { printf("VIOL idx=0 sig=c02/harness :: pattern %s\n", pool[a]); return 2; } }
     tc_init(&T, table, 256, 16);
     K = mc_thorough ? 4 : 3;
-    for (a = 0; a < NPOOL; a++) for (b = 0; b < NPOOL; b++) {
-        if (a == b) continue;
-        ids[0] = a; ids[1] = b; set_table(ids, 2); run_table(K); ntab++;
-        for (c = 0; c < NPOOL; c++) {
-            if (c == a || c == b) continue;
-            ids[2] = c; set_table(ids, 3); run_table(mc_thorough ? 3 : 2); ntab++;
+    for (voc = 0; voc < 2; voc++) {
+        pool = voc ? pool2 : pool1; spell = voc ? spell2 : spell1; npool = voc ? NPOOL2 : NPOOL; NSPELL = voc ? NSPELL2 : NSPELL1;
+        for (a = 0; a < npool; a++) { pool_rp[a] = rp_parse(pool[a]); if (!pool_rp[a].ok) { printf("VIOL idx=0 sig=c02/harness :: pattern %s\n", pool[a]); return 2; } }
+        for (a = 0; a < npool; a++) for (b = 0; b < npool; b++) {
+            if (a == b) continue;
+            ids[0] = a; ids[1] = b; set_table(ids, 2); run_table(voc && mc_thorough ? 3 : K); ntab++;
+            for (c = 0; c < npool && !(voc && !mc_thorough); c++) {
+                if (c == a || c == b) continue;
+                ids[2] = c; set_table(ids, 3); run_table(mc_thorough ? 3 : 2); ntab++;
+            }
         }
+        for (a = 0; a < npool; a++) ids[a] = a;
+        set_table(ids, npool); run_table(K); ntab++;
+        for (a = 0; a < npool; a++) ids[a] = npool - 1 - a;
+        set_table(ids, npool); run_table(K); ntab++;
     }
-    for (a = 0; a < NPOOL; a++) ids[a] = a;
-    set_table(ids, NPOOL); run_table(K); ntab++;
-    for (a = 0; a < NPOOL; a++) ids[a] = NPOOL - 1 - a;
-    set_table(ids, NPOOL); run_table(K); ntab++;
     if (mc_shard == 0) {
         mc_sample("table {AAAA[:Dd]:Ee, AAAA:Ee} message [AAAA:Bb;Ee;*XY;Ee\\n] -> H(AAAA:Bb) H(AAAA:Ee) by the FIRST entry, H(*XY), -113 for Ee");
         mc_sample("table {AAAA:Cc#, Bb} message [aaaa:BB? ; ZZ ; Cc1\\n]");
